@@ -554,8 +554,9 @@ class Mutations:
 
         mutate_attr, mutate_param = hp_config.sample()
 
-        if mutate_param.value is None:
-            mutate_param.value = getattr(individual, mutate_attr)
+        # The configuration object may be shared by the whole population: always start from the
+        # individual's own current value
+        mutate_param.value = getattr(individual, mutate_attr)
 
         # Randomly grow or shrink hyperparameters by specified factors
         new_value = mutate_param.mutate()
